@@ -13,7 +13,15 @@ use microscpi::{Error, ErrorQueue, Interface, StaticErrorQueue};
 use crate::alloc::Harness;
 
 pub const IDN: &str = "SIM,MICROSCPI,0,1.0";
-pub static TEXTS: [&str; 5] = ["Custom error A", "Device-specific fault", "Overrange, channel 2", "x", "relay \"K1\" stuck"];
+pub static TEXTS: [&str; 6] = [
+    "Custom error A",
+    "Device-specific fault",
+    "Overrange, channel 2",
+    "x",
+    "relay \"K1\" stuck",
+    // longer than 255 bytes, with a two-byte character straddling byte 255
+    "calibration record rejected: checksum mismatch in segment 0000000000000000000000000000000000000000000000000000000000000000000000000000000000000000000000000000000000000000000000000000000000000000000000000000000000000000000000000000000000000000000000000000000000000000000000000000\u{00e9}\u{00e9}\u{00e9} of 12",
+];
 
 /// Error returned by FAIL handlers: `Custom(code, text)`, text chosen by code.
 pub fn custom_error(code: i16) -> Error {
@@ -30,7 +38,7 @@ pub fn custom_error(code: i16) -> Error {
         // number 0 with an empty description: indistinguishable from "no error" in the
         // answer, but it is an error that occurred and must be stored like any other
         0 => Error::Custom(0, ""),
-        _ => Error::Custom(code, TEXTS[(code as u16 % 5) as usize]),
+        _ => Error::Custom(code, TEXTS[(code as u16 % 6) as usize]),
     }
 }
 
